@@ -170,7 +170,8 @@ class Adapter:
     rev_kinds = []      # reverse op kinds
     must_raise_rev = []  # labels
     may_raise_rev = set()  # reverse kinds for which an exception is an acceptable answer
-    pauli0 = False
+    pauli0 = True       # Pauli / PauliRotation gates may carry identity factors (pauli id 0): an exporter either rejects
+                        # them or must treat the factor as the identity
 
     def unitary(self, obj, n):  # -> little-endian 2^n matrix from the backend's own simulator
         raise NotImplementedError
